@@ -1,5 +1,5 @@
 import time
-from threading import Thread, current_thread
+from threading import Lock, Thread, current_thread
 from typing import Any, Callable, Optional, Set
 
 from nextline.utils.thread_exception import ExcThread
@@ -33,6 +33,11 @@ class ThreadDoneCallback:
         self._active: Set[Thread] = set()
         self._closed = False
 
+        # To be held while `_active` is read and updated. Otherwise, a thread
+        # registered during the scan or the update in `_monitor()` is lost or
+        # breaks the iteration.
+        self._lock = Lock()
+
         self._t = ExcThread(target=self._monitor, daemon=True)
         self._t.start()
 
@@ -44,7 +49,8 @@ class ThreadDoneCallback:
         """
         if thread is None:
             thread = current_thread()
-        self._active.add(thread)
+        with self._lock:
+            self._active.add(thread)
         return thread
 
     def close(self) -> None:
@@ -66,19 +72,19 @@ class ThreadDoneCallback:
     def _monitor(self) -> None:
         exc = []
         while True:
-            if done := {t for t in self._active if not t.is_alive()}:
-                if self._done:
-                    for d in done:
-                        try:
-                            self._done(d)
-                        except BaseException as e:
-                            exc.append(e)
+            with self._lock:
+                done = {t for t in self._active if not t.is_alive()}
                 self._active = self._active - done
+            if self._done:
+                for d in done:
+                    try:
+                        self._done(d)
+                    except BaseException as e:
+                        exc.append(e)
             time.sleep(self._interval)
-            if self._active:
-                continue
-            if self._closed:
-                break
+            with self._lock:
+                if not self._active and self._closed:
+                    break
         if exc:
             raise exc[0]
 
